@@ -522,8 +522,11 @@ func (cm *BasicConnMgr) getConnsToClose() []network.Conn {
 		s.Lock()
 		if len(inf.conns) == 0 && inf.temp {
 			// handle temporary entries for early tags -- this entry has gone past the grace period
-			// and still holds no connections, so prune it.
-			delete(s.peers, inf.id)
+			// and still holds no connections, so prune it -- unless a concurrent trim already
+			// did and the peer has a new entry by now.
+			if s.peers[inf.id] == inf {
+				delete(s.peers, inf.id)
+			}
 		} else {
 			for c := range inf.conns {
 				selected = append(selected, c)
